@@ -1,0 +1,5 @@
+//go:build !verif
+
+package parse
+
+func verifStep() {}
